@@ -867,6 +867,26 @@ def refusal_reason(o, module=None):
     return None
 
 
+def c03_noawait(rep, W, rule="C03.NOAWAIT"):
+    """A handler never suspends once it has started talking to storage.  Storage calls are synchronous and an actix worker
+    runs its handlers on one thread: a handler that awaits while it holds a storage transaction (the SQLite write lock, the
+    in-memory mutex guard) parks with the lock taken, and the next request the same worker polls blocks the thread the
+    parked handler needs in order to resume -- a 5 s stall and a 500 on SQLite, a dead worker in memory.  So: in every
+    protocol handler no await point (a `Future::poll` of an awaited future) is reachable from a storage-reaching call."""
+    n = 0
+    for module in WD.HANDLER_MODULES:
+        body = W.handler(module)
+        g = W.gea(body)
+        sr = storage_reaching_calls(W, body)
+        polls = [bb for bb, t in body.calls() if t["callee"].get("def") == POLL]
+        bad = sorted({(body.line_of_block(s_), body.line_of_block(p_)) for s_ in sr for p_ in polls if g.may_follow(s_, p_)})
+        n += len(sr)
+        rep.ob(rule, (S.short_fn(body), "no-await-after-storage-access"), not bad,
+               "await points reachable after a storage-reaching call (storage call line, await line): %s" % (bad[:3] or "none"),
+               where(body, line=bad[0][1]) if bad else where(body))
+    rep.floor(rule, "storage-reaching calls in handlers", n, 4)
+
+
 def c15_refuse(rep, W, rule="C15.REFUSE", modules=None):
     floors = {"add_version": 3, "add_snapshot": 3, "get_child_version": 1, "get_snapshot": 1}   # content type, client id, + body refusals (possibly inside a helper)
     for module in (modules or WD.HANDLER_MODULES):
